@@ -91,6 +91,16 @@ CLAIMED['C01'] = ('other',
     'abstract interpretation of the string dialect (dataflow of character classes and lengths) + shape rule for is_valid()',
     'DESIGN.md sections 2.2 and C01')
 
+CLAIMED['C15'] = ('other',
+    'Same abstract interpretation as C01: on every return path of every identifier module\'s validate() each character class of the '
+    'returned string must be a subset of ASCII (plus the national letters the property names). Classes are exact sets of blocks of a '
+    'partition of all code points that separates ASCII, Nd, isdigit/isalpha/isalnum, \\w, whitespace and case-mapping behaviour, so '
+    '"\\d matched" or "int() succeeded" does not count as an ASCII gate. 19 modules fail today and are listed, each with a concrete '
+    'accepted non-ASCII input, in known_findings.json; any other module that loses its ASCII gate is reported.',
+    'Trusted: as C01. Undecided (sa/scope.py): the US TIN family, eu.vat, eu.nace, de.handelsregisternummer, gs1_128.',
+    'abstract interpretation: character-class dataflow to every return of validate()',
+    'DESIGN.md section C15')
+
 NOT_APPLICABLE = {
 }
 
